@@ -58,6 +58,64 @@ theorem Col.alloc_snd (s : Col) (tier : Nat) :
 theorem tier_withVals (s : Col) (v : Trie Slot) (ts : Trie Tier) (n t : Nat) :
     (s.withVals v ts n).tier t = (ts.get t).getD Tier.init := rfl
 
+theorem Col.resize_snd (s : Col) (tier hd m : Nat) :
+    s.resize tier hd m = s.withVals s.values (s.resize tier hd m).tiers s.nLive := rfl
+
+/-- the fill mark after `next_free` is at most the fill mark after the continuation slots have
+been taken as well -/
+theorem alloc_filled_le_resize (s : Col) (tier hd m : Nat) :
+    ((s.alloc tier).2.tier tier).filled ≤ (((s.alloc tier).2.resize tier hd m).tier tier).filled := by
+  rw [Col.tier_resize, if_pos rfl]
+  exact Tier.resize_filled_le _ _ _
+
+/-- the slot `next_free` returns holds no value -/
+theorem SlotInv.alloc_fresh {s : Col} (h : SlotInv s) (tier : Nat) (htier : tier < 256)
+    (hbound : ((s.alloc tier).2.tier tier).filled ≤ 2 ^ 56) :
+    s.tailAt (Address.new (s.alloc tier).1 tier) = none ∧
+      1 ≤ (s.alloc tier).1 ∧ (s.alloc tier).1 < 2 ^ 56 := by
+  obtain ⟨_, h2, h3, h4⟩ := SlotInv.alloc_set (s' := (s.alloc tier).2.setVal
+      (Address.new (s.alloc tier).1 tier) (some ⟨0, ""⟩) 0) h tier 0 htier
+    hbound (fun _ => rfl) (fun x => by
+      rw [Col.tailAt_setVal]
+      have e : (s.alloc tier).2.tailAt x = s.tailAt x := by rw [Col.alloc_snd]; rfl
+      by_cases hx : Address.new (s.alloc tier).1 tier = x
+      · subst hx; simp
+      · have : ¬ x = Address.new (s.alloc tier).1 tier := fun e => hx e.symm
+        simp [hx, this, e])
+  exact ⟨h2, h3, h4⟩
+
+/-- `next_free` for the head slot, the continuation slots, and the value written at the head. -/
+theorem SlotInv.alloc_resize {s s' : Col} (h : SlotInv s) (tier ext tl : Nat) (htier : tier < 256)
+    (hts : ∀ t, s'.tier t = ((s.alloc tier).2.resize tier (s.alloc tier).1 ext).tier t)
+    (ht : ∀ x, s'.tailAt x = if x = Address.new (s.alloc tier).1 tier then some tl else s.tailAt x)
+    (hbound : (s'.tier tier).filled ≤ 2 ^ 56) :
+    SlotInv s' ∧ s.tailAt (Address.new (s.alloc tier).1 tier) = none ∧
+      1 ≤ (s.alloc tier).1 ∧ (s.alloc tier).1 < 2 ^ 56 := by
+  have hb1 : ((s.alloc tier).2.tier tier).filled ≤ 2 ^ 56 := by
+    rw [hts] at hbound
+    exact Nat.le_trans (alloc_filled_le_resize s tier _ ext) hbound
+  have ht1 : ∀ x, ((s.alloc tier).2.setVal (Address.new (s.alloc tier).1 tier) (some ⟨tl, ""⟩) 0).tailAt x =
+      if x = Address.new (s.alloc tier).1 tier then some tl else s.tailAt x := by
+    intro x
+    rw [Col.tailAt_setVal]
+    have e : (s.alloc tier).2.tailAt x = s.tailAt x := by rw [Col.alloc_snd]; rfl
+    by_cases hx : Address.new (s.alloc tier).1 tier = x
+    · subst hx; simp
+    · have : ¬ x = Address.new (s.alloc tier).1 tier := fun e => hx e.symm
+      simp [hx, this, e]
+  obtain ⟨hS1, h2, h3, h4⟩ := SlotInv.alloc_set (s' := (s.alloc tier).2.setVal
+      (Address.new (s.alloc tier).1 tier) (some ⟨tl, ""⟩) 0) h tier tl htier hb1 (fun _ => rfl) ht1
+  refine ⟨?_, h2, h3, h4⟩
+  have hlive := ht1 (Address.new (s.alloc tier).1 tier)
+  rw [if_pos rfl] at hlive
+  have e1 := address_tier_new (s.alloc tier).1 tier h4 htier
+  have e2 := address_offset_new (s.alloc tier).1 tier h4 htier
+  refine hS1.resize _ tl hlive ext (fun t => ?_) (fun x => by rw [ht, ht1]) (by rw [e1]; exact hbound)
+  rw [hts, Col.tier_resize, e1, e2]
+  by_cases e : tier = t
+  · subst e; rw [if_pos rfl, if_pos rfl]; rfl
+  · rw [if_neg e, if_neg e]; rfl
+
 theorem Res.map_ok {f : Col → Col} {r : Res} {s' : Col} (h : r.map f = .ok s') :
     ∃ s, r = .ok s ∧ s' = f s := by
   cases r with
@@ -156,15 +214,15 @@ theorem Abs.congr {U : Key → Prop} {s s' : Col} {m : Key → Option Val} (hA :
 /-! ## `write_plan_new` -/
 
 theorem writeNew_ok {U : Key → Prop} {s s' : Col} {m : Key → Option Val} (hU : Univ U)
-    (hG : Good U s m) (k : Key) (hk : U k) (tier : Nat) (v : Val) (htier : tier < 256)
-    (hnone : searchAll s k = none) (h : writeNew s k tier v = .ok s') (hB : Bounded s') :
+    (hG : Good U s m) (k : Key) (hk : U k) (tier ext : Nat) (v : Val) (htier : tier < 256)
+    (hnone : searchAll s k = none) (h : writeNew s k tier ext v = .ok s') (hB : Bounded s') :
     Good U s' (upd m k (some v)) := by
   unfold writeNew at h
   simp only at h
-  have e2 : (s.alloc tier).2.setVal (Address.new (s.alloc tier).1 tier) (some ⟨k.tail, v⟩)
-        ((s.alloc tier).2.nLive + 1) =
+  have e2 : ((s.alloc tier).2.setVal (Address.new (s.alloc tier).1 tier) (some ⟨k.tail, v⟩)
+        ((s.alloc tier).2.nLive + 1)).resize tier (s.alloc tier).1 ext =
       s.withVals (s.values.set DEPTH (Address.new (s.alloc tier).1 tier) (some ⟨k.tail, v⟩))
-        (s.alloc tier).2.tiers (s.nLive + 1) := by
+        ((s.alloc tier).2.resize tier (s.alloc tier).1 ext).tiers (s.nLive + 1) := by
     rw [Col.alloc_snd s tier]; rfl
   rw [e2, insertLoop_withVals] at h
   obtain ⟨si, hi, hs'⟩ := Res.map_ok h
@@ -174,13 +232,13 @@ theorem writeNew_ok {U : Key → Prop} {s s' : Col} {m : Key → Option Val} (hU
   have hnolive : ∀ x, s.tailAt x ≠ some k.tail := searchAll_complete hU hG.idx k hk hnone
   -- slots
   have htail : ∀ x, (si.withVals (s.values.set DEPTH (Address.new (s.alloc tier).1 tier)
-      (some ⟨k.tail, v⟩)) (s.alloc tier).2.tiers (s.nLive + 1)).tailAt x =
+      (some ⟨k.tail, v⟩)) ((s.alloc tier).2.resize tier (s.alloc tier).1 ext).tiers (s.nLive + 1)).tailAt x =
       if x = Address.new (s.alloc tier).1 tier then some k.tail else s.tailAt x :=
     fun x => tailAt_vals_some s si _ _ _ _ x
-  obtain ⟨hSl, hfresh, ho1, ho56⟩ := SlotInv.alloc_set
+  obtain ⟨hSl, hfresh, ho1, ho56⟩ := SlotInv.alloc_resize
     (s' := si.withVals (s.values.set DEPTH (Address.new (s.alloc tier).1 tier)
-      (some ⟨k.tail, v⟩)) (s.alloc tier).2.tiers (s.nLive + 1))
-    hG.slots tier k.tail htier (hB.filled tier htier) (fun _ => rfl) htail
+      (some ⟨k.tail, v⟩)) ((s.alloc tier).2.resize tier (s.alloc tier).1 ext).tiers (s.nLive + 1))
+    hG.slots tier ext k.tail htier (fun _ => rfl) htail (hB.filled tier htier)
   have ha0 : Address.new (s.alloc tier).1 tier ≠ 0 := address_new_ne_zero _ _ ho56 htier ho1
   refine ⟨?_, hSl, ?_⟩
   · refine (hG.idx.ext hE hS).add_val hU rfl rfl rfl _ k hk (fun x => ?_) (fun x _ => ?_) (hH ha0)
@@ -238,12 +296,16 @@ theorem freed_valAt (s : Col) (a n x : Nat) :
 
 theorem Col.tier_release (s : Col) (tier off t : Nat) :
     (s.release tier off).tier t =
-      if tier = t then ⟨(s.tier tier).filled, off :: (s.tier tier).free⟩ else s.tier t :=
+      if tier = t then ⟨(s.tier tier).filled,
+        (off :: chainRest (s.tier tier).chains off).reverse ++ (s.tier tier).free,
+        chainDrop (s.tier tier).chains off⟩ else s.tier t :=
   Col.tier_set s tier t _
 
 theorem freed_tier (s : Col) (a n t : Nat) :
     (freed s a n).tier t = if Address.size_tier a = t then
-      ⟨(s.tier t).filled, Address.offset a :: (s.tier t).free⟩ else s.tier t := by
+      ⟨(s.tier t).filled,
+        (Address.offset a :: chainRest (s.tier t).chains (Address.offset a)).reverse ++ (s.tier t).free,
+        chainDrop (s.tier t).chains (Address.offset a)⟩ else s.tier t := by
   have : (freed s a n).tier t = (s.release (Address.size_tier a) (Address.offset a)).tier t := rfl
   rw [this, Col.tier_release]
   by_cases h : Address.size_tier a = t
@@ -260,22 +322,36 @@ theorem freed_good {U : Key → Prop} {s : Col} {m : Key → Option Val} (hU : U
 /-! ## `write_plan_existing`: replace in place -/
 
 theorem write_inplace_ok {U : Key → Prop} {s : Col} {m : Key → Option Val} (hU : Univ U)
-    (hG : Good U s m) (k : Key) (hk : U k) (a : Nat) (v : Val) (hl : s.tailAt a = some k.tail) :
-    Good U (s.setVal a (some ⟨k.tail, v⟩) s.nLive) (upd m k (some v)) := by
+    (hG : Good U s m) (k : Key) (hk : U k) (a ext : Nat) (v : Val) (hl : s.tailAt a = some k.tail)
+    (hB : Bounded ((s.setVal a (some ⟨k.tail, v⟩) s.nLive).resize (Address.size_tier a)
+      (Address.offset a) ext)) :
+    Good U ((s.setVal a (some ⟨k.tail, v⟩) s.nLive).resize (Address.size_tier a) (Address.offset a) ext)
+      (upd m k (some v)) := by
   have ht : ∀ x, (s.setVal a (some ⟨k.tail, v⟩) s.nLive).tailAt x = s.tailAt x := by
     intro x
     rw [Col.tailAt_setVal]
     by_cases h : a = x
     · subst h; simp [hl]
     · simp [h]
-  refine ⟨hG.idx.congr rfl rfl rfl ht, hG.slots.congr (fun _ => rfl) ht, ?_⟩
-  refine hG.abs.set hU k hk v a (fun x => ?_) (fun x hx h => hx (hG.idx.inj x a k.tail h hl))
-    (Or.inr hl)
-  rw [Col.valAt_setVal]
-  by_cases h : a = x
-  · simp [h]
-  · have : ¬ x = a := fun e => h e.symm
-    simp [h, this]
+  have hS1 : SlotInv (s.setVal a (some ⟨k.tail, v⟩) s.nLive) := hG.slots.congr (fun _ => rfl) ht
+  have hd := hG.slots.decode a k.tail hl
+  refine ⟨?_, ?_, ?_⟩
+  · exact hG.idx.congr rfl rfl rfl ht
+  · refine hS1.resize a k.tail (by rw [ht]; exact hl) ext (fun t => ?_) (fun _ => rfl)
+      (hB.filled _ hd.1)
+    rw [Col.tier_resize]
+    by_cases e : Address.size_tier a = t
+    · subst e; simp
+    · simp [e]
+  · refine hG.abs.set hU k hk v a (fun x => ?_) (fun x hx h => hx (hG.idx.inj x a k.tail h hl))
+      (Or.inr hl)
+    have e : ((s.setVal a (some ⟨k.tail, v⟩) s.nLive).resize (Address.size_tier a) (Address.offset a)
+        ext).valAt x = (s.setVal a (some ⟨k.tail, v⟩) s.nLive).valAt x := rfl
+    rw [e, Col.valAt_setVal]
+    by_cases h : a = x
+    · simp [h]
+    · have : ¬ x = a := fun e => h e.symm
+      simp [h, this]
 
 /-! ## `write_plan_existing`: remove -/
 
@@ -461,18 +537,19 @@ theorem upd_upd (m : Key → Option Val) (k : Key) (o1 o2 : Option Val) :
 
 theorem write_move_ok {U : Key → Prop} {s s' : Col} {m : Key → Option Val} (hU : Univ U)
     (hG : Good U s m) (k : Key) (hk : U k) (j i a : Nat) (tj : Table) (hF : Found s k j i a tj)
-    (tier' : Nat) (v : Val) (htier' : tier' < 256) (hne : Address.size_tier a ≠ tier')
+    (tier' ext : Nat) (v : Val) (htier' : tier' < 256) (hne : Address.size_tier a ≠ tier')
     (hgrow : s.cfg.growOnMove = true)
-    (h : writeExisting s k (some (tier', v)) j i a = .ok s') (hB : Bounded s') :
+    (h : writeExisting s k (some (tier', ext, v)) j i a = .ok s') (hB : Bounded s') :
     Good U s' (upd m k (some v)) := by
   have hGD := freed_good hU hG k hk a s.nLive hF.live
   -- the value part
-  have hmv : moveValue s k a tier' v =
+  have hmv : moveValue s k a tier' ext v =
       (Address.new ((freed s a s.nLive).alloc tier').1 tier',
        (freed s a s.nLive).withVals
          ((freed s a s.nLive).values.set DEPTH (Address.new ((freed s a s.nLive).alloc tier').1 tier')
            (some ⟨k.tail, v⟩))
-         ((freed s a s.nLive).alloc tier').2.tiers (freed s a s.nLive).nLive) := by
+         (((freed s a s.nLive).alloc tier').2.resize tier' ((freed s a s.nLive).alloc tier').1 ext).tiers
+         (freed s a s.nLive).nLive) := by
     unfold moveValue
     simp only
     have : (s.release (Address.size_tier a) (Address.offset a)).setVal a none s.nLive =
@@ -508,25 +585,16 @@ theorem write_move_ok {U : Key → Prop} {s s' : Col} {m : Key → Option Val} (
     · simp [hj] at hi'
   generalize freed s a s.nLive = sD at hGD h hdeadD hother hsub
   -- the tiers of the final state are those after the allocation
-  have htiers : s'.tiers = (sD.alloc tier').2.tiers :=
-    insertCont_tiers (s := (sD.withVals (sD.values.set DEPTH (Address.new (sD.alloc tier').1 tier') (some ⟨k.tail, v⟩)) (sD.alloc tier').2.tiers sD.nLive)) _ _ _ _ _ h
-  have hbnd : ((sD.alloc tier').2.tier tier').filled ≤ 2 ^ 56 := by
+  have htiers : s'.tiers = ((sD.alloc tier').2.resize tier' (sD.alloc tier').1 ext).tiers :=
+    insertCont_tiers (s := (sD.withVals (sD.values.set DEPTH (Address.new (sD.alloc tier').1 tier') (some ⟨k.tail, v⟩)) ((sD.alloc tier').2.resize tier' (sD.alloc tier').1 ext).tiers sD.nLive)) _ _ _ _ _ h
+  have hbnd2 : (((sD.alloc tier').2.resize tier' (sD.alloc tier').1 ext).tier tier').filled ≤ 2 ^ 56 := by
     have h1 := hB.filled tier' htier'
     simp only [Col.tier] at h1 ⊢
     rw [htiers] at h1
     exact h1
-  have hfreshD : sD.tailAt (Address.new (sD.alloc tier').1 tier') = none ∧
-      1 ≤ (sD.alloc tier').1 ∧ (sD.alloc tier').1 < 2 ^ 56 := by
-    obtain ⟨_, h2, h3, h4⟩ := SlotInv.alloc_set (s' := (sD.alloc tier').2.setVal
-        (Address.new (sD.alloc tier').1 tier') (some ⟨k.tail, v⟩) 0) hGD.slots tier' k.tail htier'
-      hbnd (fun _ => rfl) (fun x => by
-        rw [Col.tailAt_setVal]
-        have e : (sD.alloc tier').2.tailAt x = sD.tailAt x := by rw [Col.alloc_snd]; rfl
-        by_cases hx : Address.new (sD.alloc tier').1 tier' = x
-        · subst hx; simp
-        · have : ¬ x = Address.new (sD.alloc tier').1 tier' := fun e => hx e.symm
-          simp [hx, this, e])
-    exact ⟨h2, h3, h4⟩
+  have hbnd : ((sD.alloc tier').2.tier tier').filled ≤ 2 ^ 56 :=
+    Nat.le_trans (alloc_filled_le_resize sD tier' _ ext) hbnd2
+  have hfreshD := hGD.slots.alloc_fresh tier' htier' hbnd
   have ha0 : Address.new (sD.alloc tier').1 tier' ≠ 0 :=
     address_new_ne_zero _ _ hfreshD.2.2 htier' hfreshD.2.1
   obtain ⟨sI, hs', hII, hHas, hvals⟩ := move_index hGD.idx k.pre _ _ ha0 hfreshD.1 hsub _ _ _ _ h hB.bits
@@ -534,19 +602,19 @@ theorem write_move_ok {U : Key → Prop} {s s' : Col} {m : Key → Option Val} (
   have hItail : ∀ x, sI.tailAt x = sD.tailAt x := by
     intro x; simp only [Col.tailAt, Col.valAt, hvals]
   have htail : ∀ x, (sI.withVals (sD.values.set DEPTH (Address.new (sD.alloc tier').1 tier')
-      (some ⟨k.tail, v⟩)) (sD.alloc tier').2.tiers sD.nLive).tailAt x =
+      (some ⟨k.tail, v⟩)) ((sD.alloc tier').2.resize tier' (sD.alloc tier').1 ext).tiers sD.nLive).tailAt x =
       if x = Address.new (sD.alloc tier').1 tier' then some k.tail else sD.tailAt x :=
     fun x => tailAt_vals_some sD sI _ _ _ _ x
-  obtain ⟨hSl, _, _, _⟩ := SlotInv.alloc_set
+  obtain ⟨hSl, _, _, _⟩ := SlotInv.alloc_resize
     (s' := sI.withVals (sD.values.set DEPTH (Address.new (sD.alloc tier').1 tier')
-      (some ⟨k.tail, v⟩)) (sD.alloc tier').2.tiers sD.nLive)
-    hGD.slots tier' k.tail htier' hbnd (fun _ => rfl) htail
+      (some ⟨k.tail, v⟩)) ((sD.alloc tier').2.resize tier' (sD.alloc tier').1 ext).tiers sD.nLive)
+    hGD.slots tier' ext k.tail htier' (fun _ => rfl) htail hbnd2
   refine ⟨?_, hSl, ?_⟩
   · refine hII.add_val hU rfl rfl rfl _ k hk (fun x => ?_) (fun x _ => ?_) hHas
     · rw [htail x, hItail]
     · rw [hItail]; exact hother x
   · have := hGD.abs.set (s' := sI.withVals (sD.values.set DEPTH (Address.new (sD.alloc tier').1 tier')
-        (some ⟨k.tail, v⟩)) (sD.alloc tier').2.tiers sD.nLive) hU k hk v _
+        (some ⟨k.tail, v⟩)) ((sD.alloc tier').2.resize tier' (sD.alloc tier').1 ext).tiers sD.nLive) hU k hk v _
       (fun x => valAt_vals sD sI _ _ _ _ x) (fun x _ => hother x) (Or.inl hfreshD.1)
     rw [upd_upd] at this
     exact this
@@ -569,9 +637,9 @@ theorem Abs.del_absent {U : Key → Prop} {s : Col} {m : Key → Option Val} (hA
 
 /-- Planned writes keep the invariants and implement the map update (with the move fix). -/
 theorem write_ok {U : Key → Prop} {s s' : Col} {m : Key → Option Val} (hU : Univ U)
-    (hG : Good U s m) (k : Key) (hk : U k) (op : Option (Nat × Val))
-    (hop : ∀ t v, op = some (t, v) → t < 256) (hgrow : s.cfg.growOnMove = true)
-    (h : write s k op = .ok s') (hB : Bounded s') : Good U s' (upd m k (op.map (·.2))) := by
+    (hG : Good U s m) (k : Key) (hk : U k) (op : Option (Nat × Nat × Val))
+    (hop : ∀ t e v, op = some (t, e, v) → t < 256) (hgrow : s.cfg.growOnMove = true)
+    (h : write s k op = .ok s') (hB : Bounded s') : Good U s' (upd m k (op.map (·.2.2))) := by
   unfold write at h
   cases hs : searchAll s k with
   | none =>
@@ -584,9 +652,9 @@ theorem write_ok {U : Key → Prop} {s s' : Col} {m : Key → Option Val} (hU : 
       subst h
       exact ⟨hG.idx, hG.slots, hG.abs.del_absent k hk (searchAll_complete hU hG.idx k hk hs)⟩
     | some tv =>
-      obtain ⟨tier, v⟩ := tv
+      obtain ⟨tier, ext, v⟩ := tv
       simp only at h
-      exact writeNew_ok hU hG k hk tier v (hop tier v rfl) hs h hB
+      exact writeNew_ok hU hG k hk tier ext v (hop tier ext v rfl) hs h hB
   | some r =>
     obtain ⟨j, i, a⟩ := r
     rw [hs] at h
@@ -595,20 +663,21 @@ theorem write_ok {U : Key → Prop} {s s' : Col} {m : Key → Option Val} (hU : 
     cases op with
     | none => exact write_remove_ok hU hG k hk j i a tj hF h
     | some tv =>
-      obtain ⟨tier', v⟩ := tv
+      obtain ⟨tier', ext, v⟩ := tv
       by_cases hti : Address.size_tier a = tier'
-      · have : writeExisting s k (some (tier', v)) j i a =
-            .ok (s.setVal a (some ⟨k.tail, v⟩) s.nLive) := by
+      · have : writeExisting s k (some (tier', ext, v)) j i a =
+            .ok ((s.setVal a (some ⟨k.tail, v⟩) s.nLive).resize (Address.size_tier a)
+              (Address.offset a) ext) := by
           unfold writeExisting
           simp only [hti, if_true]
         rw [this] at h
         injection h with h
         subst h
-        exact write_inplace_ok hU hG k hk a v hF.live
-      · exact write_move_ok hU hG k hk j i a tj hF tier' v (hop tier' v rfl) hti hgrow h hB
+        exact write_inplace_ok hU hG k hk a ext v hF.live hB
+      · exact write_move_ok hU hG k hk j i a tj hF tier' ext v (hop tier' ext v rfl) hti hgrow h hB
 
-theorem moveValue_current (s : Col) (k : Key) (a tier' : Nat) (v : Val) :
-    (moveValue s k a tier' v).2.current = s.current := by
+theorem moveValue_current (s : Col) (k : Key) (a tier' ext : Nat) (v : Val) :
+    (moveValue s k a tier' ext v).2.current = s.current := by
   unfold moveValue
   simp only
   rw [Col.alloc_snd]
@@ -616,7 +685,7 @@ theorem moveValue_current (s : Col) (k : Key) (a tier' : Nat) (v : Val) :
 
 /-- With an exact page search a planned write never panics. -/
 theorem write_ne_panic {U : Key → Prop} {s : Col} {m : Key → Option Val}
-    (hG : Good U s m) (hx : ExactCur s) (k : Key) (op : Option (Nat × Val)) :
+    (hG : Good U s m) (hx : ExactCur s) (k : Key) (op : Option (Nat × Nat × Val)) :
     write s k op ≠ .panic := by
   unfold write
   cases hs : searchAll s k with
@@ -625,7 +694,7 @@ theorem write_ne_panic {U : Key → Prop} {s : Col} {m : Key → Option Val}
     cases op with
     | none => simp
     | some tv =>
-      obtain ⟨tier, v⟩ := tv
+      obtain ⟨tier, ext, v⟩ := tv
       simp only
       unfold writeNew
       exact insertLoop_ne_panic _ _ _ _
@@ -640,26 +709,26 @@ theorem write_ne_panic {U : Key → Prop} {s : Col} {m : Key → Option Val}
       cases ((s.release (Address.size_tier a) (Address.offset a)).setVal a none (s.nLive - 1)).tableAt j
         |>.remove k.pre i <;> simp
     | some tv =>
-      obtain ⟨tier', v⟩ := tv
+      obtain ⟨tier', ext, v⟩ := tv
       unfold writeExisting
       simp only
       by_cases hti : Address.size_tier a = tier'
       · simp [hti]
       · simp only [hti, if_false]
-        have hcur := moveValue_current s k a tier' v
-        have hwf : TableWF (moveValue s k a tier' v).2.current := by
+        have hcur := moveValue_current s k a tier' ext v
+        have hwf : TableWF (moveValue s k a tier' ext v).2.current := by
           rw [hcur]; exact hG.idx.wf _ (by simp [Col.tables])
         have hnext : ∀ u : Unit, (fun (_ : Unit) => if s.cfg.growOnMove = true then
-            insertLoop (triggerReindex (moveValue s k a tier' v).2) k.pre (moveValue s k a tier' v).1 LOOP_FUEL
-            else Res.ok (moveValue s k a tier' v).2) u ≠ .panic := by
+            insertLoop (triggerReindex (moveValue s k a tier' ext v).2) k.pre (moveValue s k a tier' ext v).1 LOOP_FUEL
+            else Res.ok (moveValue s k a tier' ext v).2) u ≠ .panic := by
           intro u
           simp only
           by_cases hg : s.cfg.growOnMove = true
           · simp only [hg, if_true]; exact insertLoop_ne_panic _ _ _ _
           · simp [hg]
-        have hcases : (∃ t', (moveValue s k a tier' v).2.current.insert k.pre (moveValue s k a tier' v).1
+        have hcases : (∃ t', (moveValue s k a tier' ext v).2.current.insert k.pre (moveValue s k a tier' ext v).1
               (if j = 0 then some i else none) = .written t') ∨
-            (moveValue s k a tier' v).2.current.insert k.pre (moveValue s k a tier' v).1
+            (moveValue s k a tier' ext v).2.current.insert k.pre (moveValue s k a tier' ext v).1
               (if j = 0 then some i else none) = .needReindex := by
           by_cases hj : j = 0
           · simp only [hj, if_true]
